@@ -52,7 +52,13 @@ func runSuspendRebinds(c *Ctx) {
 		})
 		return found
 	}
+	// the function that reallocates the value stack moves every open upvalue
+	// along with its slot; that is not re-attaching a closed one
+	grow, _, _ := c.growFunc()
 	c.Funcs("vm", func(fr *FuncRef) {
+		if grow != nil && fr.Obj == grow.Obj {
+			return
+		}
 		if writesUpvalueState(fr.Decl.Body) {
 			rebinds[fr.Obj] = true
 		}
